@@ -76,9 +76,9 @@ def _polys(case):
     return polys
 
 
-def _majorant(case, h):
+def _majorant(case, h, key='x'):
     """M(|x| + h): float, magnitude of the Taylor terms with steps up to h"""
-    x = np.abs(np.asarray(case['x'], dtype=float)) + np.asarray(h, dtype=float)
+    x = np.abs(np.asarray(case[key], dtype=float)) + np.asarray(h, dtype=float)
     B = P.BackendFloat()
     B.majorant = True
     B.const = lambda c: abs(c)
@@ -141,10 +141,10 @@ def _shape(case):
     return tuple(case.get('xshape') or (case['N'],))
 
 
-def _seed(case, flat=False):
+def _seed(case, flat=False, key='x'):
     """the point as the caller passes it: ndarray of the drawn dtype, shape (vector, or rank >= 2 with N entries) and memory
-    layout, or a nested list; flat: as a vector (drivers that only take vectors)"""
-    x = case['x'] if flat else case['x'].reshape(_shape(case))
+    layout, or a nested list; flat: as a vector (drivers that only take vectors); key: 'x' or the second point 'x2'"""
+    x = case[key] if flat else case[key].reshape(_shape(case))
     if case.get('as_list'):
         return x.tolist()
     lay = case.get('xlayout')
@@ -230,6 +230,33 @@ class _YMarker:
 _Y = _YMarker()
 
 
+def _multi_seed(case, init, finish, second=True):
+    """Seed ALL points first (the point x and, same N / dtype / shape / layout, a second point x2), evaluate afterwards:
+    every result must be the derivative at ITS point.  The seeded inputs are independent objects: they share no memory, running the
+    program on one and then overwriting it in place does not change the other, and a later init_* of the first point returns the
+    same coefficients as the first one did.  init(key) -> seeded UTPM; finish(key, X) evaluates, extracts and compares."""
+    keys = ['x'] + (['x2'] if second and 'x2' in case else [])
+    Xs = [init(k) for k in keys]
+    for X in Xs:
+        if not isinstance(X, UTPM):
+            raise Violation('init_* returned %s' % type(X).__name__)
+    snaps = [np.ascontiguousarray(X.data).tobytes() for X in Xs]
+    for a in range(len(Xs)):
+        for b in range(a + 1, len(Xs)):
+            if Xs[a] is Xs[b] or np.shares_memory(Xs[a].data, Xs[b].data):
+                raise Violation('two separately seeded inputs (init_* of two points of the same size) share memory')
+    for k, X, snap in zip(keys, Xs, snaps):
+        if np.ascontiguousarray(X.data).tobytes() != snap:
+            raise Violation('the seeded input of point %r changed while another seeded input was evaluated / overwritten' % k)
+        finish(k, X)
+        if X.data.flags.writeable:
+            X.data.fill(7)                       # what a program that works in place on its argument does (x *= 2, x[0] = ...)
+    if len(keys) > 1 or second:
+        X3 = init('x')
+        if not isinstance(X3, UTPM) or X3.data.shape != Xs[0].data.shape or np.ascontiguousarray(X3.data).tobytes() != snaps[0]:
+            raise Violation('init_* of the same point returns different coefficients after an earlier seeded input was overwritten in place')
+
+
 def _poly_info(case, polys, **extra):
     _INFO.clear()
     info = {'mixed': P.has_mixed_monomial(polys), 'deg': P.max_degree(polys), 'out': case['out']}
@@ -246,12 +273,13 @@ def prop_poly_jacobian(case, stats):
     N = case['N']
     polys = _polys(case)
     _poly_info(case, polys)
-    xf = P.frac_point(case['x'])
-    X = guard(lambda s: UTPM.init_jacobian(s, **_kw(case)), _seed(case))
-    Y = _evaluate(case, X)
-    J = _extract('extract_jacobian', Y, _Y)
-    _compare(J, _ref_jacobian(polys, xf, N), _majorant(case, 1.0), _tol(case, 'jacobian', 1e-10), stats,
-             'extract_jacobian(f(init_jacobian(x)))')
+
+    def finish(key, X):
+        Y = _evaluate(case, X)
+        J = _extract('extract_jacobian', Y, _Y)
+        _compare(J, _ref_jacobian(polys, P.frac_point(case[key]), N), _majorant(case, 1.0, key), _tol(case, 'jacobian', 1e-10), stats,
+                 'extract_jacobian(f(init_jacobian(%s)))' % key)
+    _multi_seed(case, lambda key: guard(lambda s: UTPM.init_jacobian(s, **_kw(case)), _seed(case, key=key)), finish)
 
 
 def prop_poly_jac_vec(case, stats):
@@ -259,21 +287,23 @@ def prop_poly_jac_vec(case, stats):
     N = case['N']
     polys = _polys(case)
     _poly_info(case, polys)
-    xf = P.frac_point(case['x'])
     v = _veff(case)
-    X = guard(lambda s, w: UTPM.init_jac_vec(s, w, **_kw(case)), _seed(case), _vpass(case))
-    Y = _evaluate(case, X)
-    r = _extract('extract_jac_vec', Y, _Y)
-    J = _ref_jacobian(polys, xf, N)
     vf = P.frac_point(v)
-    ref = np.zeros(polys.shape)
-    for idx in np.ndindex(*polys.shape):
-        ref[idx] = float(sum(p_ * v_ for p_, v_ in zip([polys[idx].diff(j).eval(xf) for j in range(N)], vf)))
     h = 1.0 + np.abs(np.asarray(v, dtype=float))
-    if not np.allclose(ref, J @ np.asarray(v, dtype=float), rtol=1e-9, atol=1e-9 * _majorant(case, h)):
-        raise AssertionError('oracle self-check failed')
-    _compare(r, ref, _majorant(case, h), _tol(case, 'jac_vec', 1e-10), stats,
-             'extract_jac_vec(f(init_jac_vec(x,v))) [%s output]' % case['out'])
+
+    def finish(key, X):
+        xf = P.frac_point(case[key])
+        Y = _evaluate(case, X)
+        r = _extract('extract_jac_vec', Y, _Y)
+        J = _ref_jacobian(polys, xf, N)
+        ref = np.zeros(polys.shape)
+        for idx in np.ndindex(*polys.shape):
+            ref[idx] = float(sum(p_ * v_ for p_, v_ in zip([polys[idx].diff(j).eval(xf) for j in range(N)], vf)))
+        if not np.allclose(ref, J @ np.asarray(v, dtype=float), rtol=1e-9, atol=1e-9 * _majorant(case, h, key)):
+            raise AssertionError('oracle self-check failed')
+        _compare(r, ref, _majorant(case, h, key), _tol(case, 'jac_vec', 1e-10), stats,
+                 'extract_jac_vec(f(init_jac_vec(%s,v))) [%s output]' % (key, case['out']))
+    _multi_seed(case, lambda key: guard(lambda s, w: UTPM.init_jac_vec(s, w, **_kw(case)), _seed(case, key=key), _vpass(case)), finish)
 
 
 def prop_poly_hessian(case, stats):
@@ -281,12 +311,13 @@ def prop_poly_hessian(case, stats):
     N = case['N']
     polys = _polys(case)
     _poly_info(case, polys)
-    xf = P.frac_point(case['x'])
-    X = guard(UTPM.init_hessian, _seed(case))
-    Y = _evaluate(case, X, flat=True)           # init_hessian ravels the seed itself
-    H = _extract('extract_hessian', Y, N, _Y)
-    _compare(H, _ref_hessian(polys[()], xf, N), _majorant(case, 2.0), _tol(case, 'hessian', 1e-10), stats,
-             'extract_hessian(N, f(init_hessian(x)))')
+
+    def finish(key, X):
+        Y = _evaluate(case, X, flat=True)           # init_hessian ravels the seed itself
+        H = _extract('extract_hessian', Y, N, _Y)
+        _compare(H, _ref_hessian(polys[()], P.frac_point(case[key]), N), _majorant(case, 2.0, key), _tol(case, 'hessian', 1e-10), stats,
+                 'extract_hessian(N, f(init_hessian(%s)))' % key)
+    _multi_seed(case, lambda key: guard(UTPM.init_hessian, _seed(case, key=key)), finish)
 
 
 def prop_poly_hess_vec(case, stats):
@@ -294,17 +325,19 @@ def prop_poly_hess_vec(case, stats):
     N = case['N']
     polys = _polys(case)
     _poly_info(case, polys)
-    xf = P.frac_point(case['x'])
     v = _veff(case)
-    X = guard(lambda s, w: UTPM.init_hess_vec(s, w, **_kw(case)), _seed(case), _vpass(case))
-    Y = _evaluate(case, X)
-    r = _extract('extract_hess_vec', Y, N, _Y)
     poly = polys[()]
     vf = P.frac_point(v)
     g = [poly.diff(i) for i in range(N)]
-    ref = np.array([float(sum(g[i].diff(j).eval(xf) * vf[j] for j in range(N))) for i in range(N)])
-    _compare(r, ref, _majorant(case, 1.0 + np.abs(np.asarray(v, dtype=float))), _tol(case, 'hess_vec', 1e-10), stats,
-             'extract_hess_vec(N, f(init_hess_vec(x,v)))')
+
+    def finish(key, X):
+        xf = P.frac_point(case[key])
+        Y = _evaluate(case, X)
+        r = _extract('extract_hess_vec', Y, N, _Y)
+        ref = np.array([float(sum(g[i].diff(j).eval(xf) * vf[j] for j in range(N))) for i in range(N)])
+        _compare(r, ref, _majorant(case, 1.0 + np.abs(np.asarray(v, dtype=float)), key), _tol(case, 'hess_vec', 1e-10), stats,
+                 'extract_hess_vec(N, f(init_hess_vec(%s,v)))' % key)
+    _multi_seed(case, lambda key: guard(lambda s, w: UTPM.init_hess_vec(s, w, **_kw(case)), _seed(case, key=key), _vpass(case)), finish)
 
 
 def prop_poly_tensor(case, stats):
@@ -312,23 +345,22 @@ def prop_poly_tensor(case, stats):
     N, d = case['N'], case['d']
     polys = _polys(case)
     _poly_info(case, polys, d=d)
-    xf = P.frac_point(case['x'])
-    X = guard(UTPM.init_tensor, d, _seed(case))
-    Y = _evaluate(case, X)
-    T = _extract('extract_tensor', Y, N, _Y, as_full_matrix=False)
-    mi = np.asarray(guard(exint.generate_multi_indices, N, d))
-    rows = [tuple(int(a) for a in r) for r in mi]
+    rows = [tuple(int(a) for a in r) for r in np.asarray(guard(exint.generate_multi_indices, N, d))]
     if sorted(rows) != sorted(compositions(d, N)):
         raise Violation('generate_multi_indices(%d,%d) is not the set of multi-indices of order %d: %s' % (N, d, d, rows))
-    ref = np.stack([_ref_partials(polys, xf, alpha) for alpha in rows], axis=0)
-    scale = _majorant(case, float(d))
-    _compare(T, ref, scale, 1e-10, stats, 'extract_tensor(N, f(init_tensor(%d,x)), as_full_matrix=False)' % d)
-    if d == 2 and polys.shape == ():
-        H = _extract('extract_tensor', Y, N, _Y)
-        _compare(H, _ref_hessian(polys[()], xf, N), scale, 1e-10, stats, 'extract_tensor(N, f(init_tensor(2,x)))')
-        # a second extraction from the same y (and a second y) must give the same matrix (no state kept between calls)
-        H2 = _extract('extract_tensor', Y, N, _Y)
-        _compare(H2, _ref_hessian(polys[()], xf, N), scale, 1e-10, stats, 'second extract_tensor(N, y) from the same y')
+
+    def finish(key, X):
+        xf = P.frac_point(case[key])
+        Y = _evaluate(case, X)
+        T = _extract('extract_tensor', Y, N, _Y, as_full_matrix=False)
+        ref = np.stack([_ref_partials(polys, xf, alpha) for alpha in rows], axis=0)
+        scale = _majorant(case, float(d), key)
+        _compare(T, ref, scale, 1e-10, stats, 'extract_tensor(N, f(init_tensor(%d,%s)), as_full_matrix=False)' % (d, key))
+        if d == 2 and polys.shape == ():
+            H = _extract('extract_tensor', Y, N, _Y)
+            _compare(H, _ref_hessian(polys[()], xf, N), scale, 1e-10, stats, 'extract_tensor(N, f(init_tensor(2,%s)))' % key)
+    # the second point and the re-seeding cost five more interpolation tables: only for tables of <= 10 rays
+    _multi_seed(case, lambda key: guard(UTPM.init_tensor, d, _seed(case, key=key)), finish, second=len(rows) <= 10)
 
 
 # ---------------------------------------------------------------------------
@@ -390,6 +422,11 @@ def _seed_form(draw, case, driver, steered, smooth=False):
         steered.append(KF_HESS_INT)          # int32 polynomial arithmetic overflows: same root cause (integer data kept)
         x, kind = x.astype(np.int64), 'int64'
     case['x'], case['pkind'] = x, kind
+    # a second point of the same size and dtype (seeded before anything is evaluated); it differs from x in every draw
+    delta = np.array(draw(st.lists(st.integers(-2, 2), min_size=N, max_size=N)))
+    if not delta.any():
+        delta[draw(st.integers(0, N - 1))] = 1
+    case['x2'] = (x + delta.astype(x.dtype)).astype(x.dtype)
     # shape of the seed: vector, or (where the driver takes it) an array of rank >= 2 with N entries
     rank2 = {'jacobian': 3, 'jac_vec': 2, 'hessian': 2, 'smooth:jacobian': 3, 'smooth:hessian': 2, 'hess_vec': 16, 'tensor': 16}.get(driver)
     if rank2 and draw(st.sampled_from([False] * (rank2 - 1) + [True])):
@@ -561,6 +598,24 @@ def _mp_hessian(prog, x0):
     return H
 
 
+def _also_seed(case, X, init):
+    """smooth buckets: seed a SECOND point after X and before X is evaluated (the program is only known to be inside its domain
+    at x, so the second input is not evaluated); the two inputs share no memory, and overwriting the second one in place leaves
+    X byte-identical - X is then evaluated and compared with the reference at its own point by the caller"""
+    if 'x2' not in case:
+        return
+    before = np.ascontiguousarray(X.data).tobytes()
+    X2 = init('x2')
+    if not isinstance(X2, UTPM):
+        raise Violation('init_* returned %s' % type(X2).__name__)
+    if X2 is X or np.shares_memory(X2.data, X.data):
+        raise Violation('two separately seeded inputs (init_* of two points of the same size) share memory')
+    if X2.data.flags.writeable:
+        X2.data.fill(7)
+    if np.ascontiguousarray(X.data).tobytes() != before:
+        raise Violation('seeding (and overwriting) a second input changed the first seeded input')
+
+
 def _dry_run(case):
     y0 = np.asarray(P.run(case['prog'], case['x'].astype(float), P.BackendFloat()), dtype=float)   # harness: shape, finiteness
     if not np.all(np.isfinite(y0)):
@@ -580,7 +635,9 @@ def prop_smooth_jacobian(case, stats):
     prog = case['prog']
     y0 = _dry_run(case)
     xv = case['x'].astype(float)
-    Y = _evaluate(case, guard(UTPM.init_jacobian, _seed(case)))
+    X = guard(UTPM.init_jacobian, _seed(case))
+    _also_seed(case, X, lambda key: guard(UTPM.init_jacobian, _seed(case, key=key)))
+    Y = _evaluate(case, X)
     J = _extract('extract_jacobian', Y, _Y)
     ref = _mp_jacobian(prog, xv, y0.shape)
     scale = max(1.0, float(np.max(np.abs(ref))) if ref.size else 1.0)
@@ -590,7 +647,10 @@ def prop_smooth_jacobian(case, stats):
     _compare(J, ref, scale, tol, stats, 'extract_jacobian(f(init_jacobian(x))) vs mpmath')
     # column j of the Jacobian == Jacobian-vector product with e_j
     for j in range(N):
-        Yj = _evaluate(case, guard(UTPM.init_jac_vec, _seed(case), _unit(case, j)))
+        Xj = guard(UTPM.init_jac_vec, _seed(case), _unit(case, j))
+        if j == 0:
+            _also_seed(case, Xj, lambda key: guard(UTPM.init_jac_vec, _seed(case, key=key), _unit(case, 0)))
+        Yj = _evaluate(case, Xj)
         col = _extract('extract_jac_vec', Yj, _Y)
         _compare(col, ref[..., j], scale, tol, stats, 'extract_jac_vec with v = e_%d vs column %d of the Jacobian (mpmath)' % (j, j))
         _compare(col, J[..., j], scale, tol, stats, 'extract_jac_vec with v = e_%d vs column %d of extract_jacobian' % (j, j))
@@ -614,16 +674,22 @@ def prop_smooth_hessian(case, stats):
     _INFO.clear()
     _INFO[id(case)] = {'nt': bool(np.any(ref[~np.eye(N, dtype=bool)] != 0))}
     if not case.get('skip_init_hessian'):
-        H = _extract('extract_hessian', _evaluate(case, guard(UTPM.init_hessian, _seed(case)), flat=True), N, _Y)
+        Xh = guard(UTPM.init_hessian, _seed(case))
+        _also_seed(case, Xh, lambda key: guard(UTPM.init_hessian, _seed(case, key=key)))
+        H = _extract('extract_hessian', _evaluate(case, Xh, flat=True), N, _Y)
         _compare(H, ref, scale, _tol(case, 'hessian', 1e-9), stats, 'extract_hessian(N, f(init_hessian(x))) vs mpmath')
-    T = _extract('extract_tensor', _evaluate(case, guard(UTPM.init_tensor, 2, _seed(case, flat=True)), flat=True), N, _Y)
+    Xt = guard(UTPM.init_tensor, 2, _seed(case, flat=True))
+    _also_seed(case, Xt, lambda key: guard(UTPM.init_tensor, 2, _seed(case, flat=True, key=key)))
+    T = _extract('extract_tensor', _evaluate(case, Xt, flat=True), N, _Y)
     _compare(T, ref, scale, 1e-9, stats, 'extract_tensor(N, f(init_tensor(2,x))) vs mpmath Hessian')
     tol = _tol(case, 'hess_vec', 1e-9)
     for j in range(N):
         col = _extract('extract_hess_vec', _evaluate(case, guard(UTPM.init_hess_vec, _seed(case, flat=True), _unit(case, j).reshape(-1)), flat=True), N, _Y)
         _compare(col, ref[:, j], scale, tol, stats, 'extract_hess_vec with v = e_%d vs column %d of the Hessian (mpmath)' % (j, j))
     v = _veff(case).astype(float)
-    hv = _extract('extract_hess_vec', _evaluate(case, guard(UTPM.init_hess_vec, _seed(case, flat=True), _vpass(case)), flat=True), N, _Y)
+    Xv = guard(UTPM.init_hess_vec, _seed(case, flat=True), _vpass(case))
+    _also_seed(case, Xv, lambda key: guard(UTPM.init_hess_vec, _seed(case, flat=True, key=key), _vpass(case)))
+    hv = _extract('extract_hess_vec', _evaluate(case, Xv, flat=True), N, _Y)
     vs = max(1.0, float(np.max(np.abs(v)))) ** 2
     _compare(hv, ref @ v, scale * vs, tol, stats, 'extract_hess_vec(N, f(init_hess_vec(x,v))) vs mpmath H v')
 
